@@ -45,7 +45,7 @@ type Case struct {
 	TimeoutMs int    `json:"timeout"`
 	Script    []Msg  `json:"script"`
 	Callbacks int    `json:"callbacks"`
-	Req       string `json:"req"`   // nil struct unmarshalable
+	Req       string `json:"req"`   // nil struct unmarshalable nilptr nilmap emptymap
 	Fault     string `json:"fault"` // "" subscribe publish
 }
 
@@ -187,6 +187,12 @@ func runCase(c Case) (msg string, p prediction) {
 		req = reqStruct{A: 1, B: "x"}
 	case "unmarshalable":
 		req = make(chan int)
+	case "nilptr":
+		req = (*reqStruct)(nil) // a typed nil is a value: encoding/json writes null
+	case "nilmap":
+		req = map[string]int(nil)
+	case "emptymap":
+		req = map[string]int{}
 	}
 	start := time.Now()
 	r := resprot.SendRequest(sc, "call.svc.model.method", req, time.Duration(c.TimeoutMs)*time.Millisecond, cbs...)
@@ -219,6 +225,10 @@ func runCase(c Case) (msg string, p prediction) {
 		return fmt.Sprintf("expected exactly one request to be published, got %v", sc.pubs), p
 	}
 	wantReq := `{}`
+	switch c.Req {
+	case "nilptr", "nilmap":
+		wantReq = `null`
+	}
 	if c.Req == "struct" {
 		wantReq = `{"a":1,"b":"x"}`
 	}
@@ -279,7 +289,7 @@ func genCase() *rapid.Generator[Case] {
 	return rapid.Custom(func(t *rapid.T) Case {
 		c := Case{TimeoutMs: rapid.SampledFrom([]int{100, 1000, 5000}).Draw(t, "timeout")}
 		c.Callbacks = rapid.IntRange(0, 2).Draw(t, "callbacks")
-		c.Req = rapid.SampledFrom([]string{"nil", "struct", "nil", "struct", "unmarshalable"}).Draw(t, "req")
+		c.Req = rapid.SampledFrom([]string{"nil", "struct", "nil", "struct", "unmarshalable", "nilptr", "nilmap", "emptymap"}).Draw(t, "req")
 		if rapid.IntRange(0, 9).Draw(t, "faulty") == 0 {
 			c.Fault = rapid.SampledFrom([]string{"subscribe", "publish"}).Draw(t, "fault")
 		}
